@@ -37,10 +37,14 @@ TakesDoc(x) == \/ x.binding = "redirect" /\ x.flow \in {"authn", "authnPostBindi
                \/ x.binding = "post" /\ x.flow # "authn"
 DocOK(x) == /\ (x.doc \in {"caller", "callerBig"} => TakesDoc(x))
             /\ (x.doc # "built" => (x.alg = "unset" /\ x.keycfg = "encField" /\ x.keytype = "rsa"))
+\* inlimit: the SP's MaximumDecompressedBodySize.  It bounds what the SP INFLATES (C12); "small" sets it far below the size of
+\* any outgoing message: what the SP SENDS must not depend on it (nothing is truncated, refused or re-encoded)
+InLimits == {"unset", "small"}
+LimitOK(x) == x.inlimit = "small" => (x.alg = "unset" /\ x.keycfg = "encField" /\ x.keytype = "rsa")
 Redirect == { x \in [binding : {"redirect"}, flow : {"authn", "authnPostBinding", "authURL", "authRedirect", "logoutReq"}, relay : RelayClasses, idpurl : IdpUrls,
-                     signReq : BOOLEAN, alg : Algs, keycfg : KeyCfgs, keytype : {"rsa", "ec"}, doc : DocKinds] : KeyOK(x) /\ DocOK(x) }
+                     signReq : BOOLEAN, alg : Algs, keycfg : KeyCfgs, keytype : {"rsa", "ec"}, doc : DocKinds, inlimit : InLimits] : KeyOK(x) /\ DocOK(x) /\ LimitOK(x) }
 Post == { x \in [binding : {"post"}, flow : {"authn", "authnFromDoc", "logoutReq", "logoutResp"}, relay : RelayClasses, idpurl : IdpUrls,
-         signReq : BOOLEAN, alg : {"unset"}, keycfg : {"encField"}, keytype : {"rsa"}, doc : DocKinds] : DocOK(x) }
+         signReq : BOOLEAN, alg : {"unset"}, keycfg : {"encField"}, keytype : {"rsa"}, doc : DocKinds, inlimit : InLimits] : DocOK(x) /\ LimitOK(x) }
 \* relay classes "binary" (octets that are not UTF-8) exist for the Redirect binding only: a URL can carry any octets
 \* percent-encoded, an HTML page is text
 RelayOK(x) == x.relay = "binary" => x.binding = "redirect"
